@@ -438,6 +438,14 @@ def unit(p, item, tier, seed):
             return circgen.random_circuit(rnd, rnd.randint(1, 3), rnd.randint(1, 5), max_arity=3, labels=labels,
                                           n_outputs=rnd.randint(1, 3))
         base, other = pick("b"), pick("o")
+        rnd2 = random.Random(s * 7919 + i)  # own stream: the cases of the main stream stay what they were
+        if rnd2.random() < 0.25 and len(other.gates) >= 2:
+            # the attached circuit holds a label together with the same label under the prefix a named connection
+            # gives it ('o1' next to 'B@o1'): every copied gate still gets prefix + its own label
+            l1, l2 = rnd2.sample(list(other.gates), 2)
+            twin = rnd2.choice(["B", "blk"]) + "@" + l1
+            if twin not in other.gates:
+                other.rename_gate(l2, twin)
         if rnd.random() < 0.25:
             other = copy.deepcopy(other)  # gate types equal to, but not identical with, the module constants
         if rnd.random() < 0.3:
